@@ -203,7 +203,7 @@ def run(ctx, widen=False):
     mul = 2 if widen else 1
 
     # ---- floats: the Display oracle (phase 1: what does the implementation print?)
-    fl = gen_floats(rng, ctx.scale(300, 3000) * mul)
+    fl = gen_floats(rng, ctx.scale(1200, 8000) * mul)
     fcases = ["writer.fdisp\t%s\t%s" % (w, ("%016x" if w == "64" else "%08x") % b) for (w, b) in fl]
     impl, _ = ctx.correspond("float_display", fcases, model=False, nontrivial=lambda c, i: len(i) > 2)
     base = len(impl) - len(fcases)
@@ -220,7 +220,7 @@ def run(ctx, widen=False):
         ncalls.append("u:6b;" + (("f64:%016x:%s" if w == "64" else "f32:%08x:%s") % (b, hexs(t)))); nmeta.append(("f" + w, b))
         if rng.random() < 0.3:
             ncalls.append("u:6b;bin:" + (("F64:%016x:%s" if w == "64" else "F32:%08x:%s") % (b, hexs(t)))); nmeta.append(("f" + w, b))
-    for _ in range(ctx.scale(400, 4000) * mul):
+    for _ in range(ctx.scale(1500, 10000) * mul):
         k, v = gen_int(rng)
         ncalls.append("u:6b;" + ("%s:%d" % (k, v) if rng.random() < 0.7 else "bin:%s:%d" % (k.upper(), v))); nmeta.append((k, v))
     for lo, hi in INT_RANGES.values():
@@ -256,7 +256,7 @@ def run(ctx, widen=False):
 
     # ---- escape(): per function, reference = drop one trailing newline, backslash before backslash/quote
     pay = [b"", b"\n", b"\\", b'"', b"\\\n", b'"\n', b"\n\n", b"a\n", b'a"', b"a\\", b'\\"', b"abc", b'Joe "Captain" Rogers\n', bytes(range(256)), bytes(range(255, -1, -1)), b'\\' * 17, b'"' * 16 + b"\n"]
-    for _ in range(ctx.scale(1500, 20000) * mul):
+    for _ in range(ctx.scale(5000, 40000) * mul):
         n = rng.choice([1, 2, 3, 4, 7, 8, 9, 15, 16, 17, 33]) if rng.random() < 0.5 else rng.randrange(0, 24)
         alpha = rng.choice([b'\\"\nab', b'\\"\n', bytes(range(256)), b'ab c\\"'])
         pay.append(bytes(rng.choice(alpha) for _ in range(n)))
@@ -296,7 +296,7 @@ def run(ctx, widen=False):
 
     # ---- documents -> call lists (all start flavours, explicit/implicit '=', typed values, write_binary forwarding)
     ccases, cmeta = [], []
-    for i in range(ctx.scale(900, 8000) * mul):
+    for i in range(ctx.scale(4000, 25000) * mul):
         d = docgen.gen_doc(rng, rng.randrange(0, 5), rng.randrange(1, 7), params=False, ghosts=False, object_tails=False, exotic=(i % 3 != 0))
         d = typed_doc(rng, d, floats)
         calls = docgen.to_calls(d, rng, binary=rng.choice([0.0, 0.0, 0.3, 1.0]))
@@ -304,7 +304,7 @@ def run(ctx, widen=False):
             continue
         ccases.append("writer.calls\t%s\t%s" % (rcfg(rng), calls)); cmeta.append(d)
     # every container flavour at depth: chains crossing the 16-byte indent cache
-    for i in range(ctx.scale(60, 400)):
+    for i in range(ctx.scale(250, 1500)):
         v = S("u", b"x")
         for j in range(rng.randrange(6, 15)):
             v = Obj([Field(S("u", b"k%d" % j), "=", v)]) if rng.random() < 0.6 else Arr([S("q", b"e"), v])
@@ -325,7 +325,7 @@ def run(ctx, widen=False):
         last = o.split(" ")[1].split(",")[-1]
         if last != "0.1":
             _fail(ctx, "calls-final-state", "after a complete document depth()/expecting_key() are %s, not 0/true" % last, [c], [o], "0.1")
-    dsel = ccases[:ctx.scale(300, 3000)]
+    dsel = ccases[:ctx.scale(1500, 8000)]
     ctx.correspond("calls_doc_debug", [with_profile(c, "d") for c in dsel], nontrivial=nt, profile="debug")
     pc = ["writer.reparse\t" + c.split("\t", 1)[1] for c in ccases]
     impl, _ = ctx.correspond("calls_reparse", pc, model=False, nontrivial=lambda c, i: " A:" in i or " O:" in i)
@@ -353,7 +353,7 @@ def run(ctx, widen=False):
         w, b, t = floats[0]
         alphabet.append(("bin:F64:%016x:%s" if w == "64" else "bin:F32:%08x:%s") % (b, hexs(t)))
     icases = []
-    for _ in range(ctx.scale(2500, 30000) * mul):
+    for _ in range(ctx.scale(10000, 80000) * mul):
         n = rng.choice([1, 2, 3, 5, 8, 13, 21, 34])
         cfg = rcfg(rng) if rng.random() < 0.8 else "%d,%d,r" % (rng.choice([32, 9, 46, 0, 255]), rng.choice([0, 1, 16, 17, 255]))
         icases.append("writer.calls\t%s\t%s" % (cfg, ";".join(rng.choice(alphabet) for _ in range(n))))
@@ -363,7 +363,7 @@ def run(ctx, widen=False):
             icases.append("writer.calls\t32,2,r\t%s;%s;e;e" % (b, a))
     nti = lambda c, i: "7b" in i.split(" ")[0] or "E" in i
     for prof, stream in (("release", "illformed"), ("debug", "illformed_debug")):
-        cs = icases if prof == "release" else [with_profile(c, "d") for c in icases[:ctx.scale(1500, 15000)]]
+        cs = icases if prof == "release" else [with_profile(c, "d") for c in icases[:ctx.scale(5000, 30000)]]
         impl, _ = ctx.correspond(stream, cs, nontrivial=nti, profile=prof)
         base = len(impl) - len(cs)
         for k, c in enumerate(cs):
